@@ -153,6 +153,14 @@ def Admissible (b : Rat) : Prop := 0 < b ∧ b ≤ 2
 
 instance (b : Rat) : Decidable (Admissible b) := by unfold Admissible; infer_instance
 
+/-- the wide range of bond orders on which bond (and obtuse-centre angle) positivity is proved: 0 < BO ≤ 32 —
+    every positive bond order a user rule can sensibly give (triple bonds = 3, fractional orders below 1, …) -/
+def Wide (b : Rat) : Prop := 0 < b ∧ b ≤ 32
+
+instance (b : Rat) : Decidable (Wide b) := by unfold Wide; infer_instance
+
+theorem Admissible.wide {b : Rat} (h : Admissible b) : Wide b := ⟨h.1, Rat.le_trans h.2 (by decide)⟩
+
 /-- the range of the bond orders named by the property (guessed, 1, 3/2, 2): 1 ≤ BO ≤ 2 -/
 def Listed (b : Rat) : Prop := 1 ≤ b ∧ b ≤ 2
 
@@ -182,20 +190,36 @@ theorem bond_symm (a1 a2 : String) (bo : Option Rat) (rules : List (List String 
     bondParams (α := ℝ) uff4mof a1 a2 bo rules = bondParams (α := ℝ) uff4mof a2 a1 bo rules :=
   bondParams_symm a1 a2 bo rules
 
-/-- **bond_len_pos.** For every pair of table types and every admissible bond order the bond is defined and its
-    length is positive. -/
-theorem bond_len_pos (a1 a2 : String) (bo : Option Rat) (rules : List (List String × Rat))
-    (h1 : IsType a1) (h2 : IsType a2) (hb : Admissible (bondOrderOf a1 a2 bo rules)) :
+/-- **bond_len_pos_wide.** For every pair of table types and EVERY bond order in (0, 32] (guessed, explicit, or from a
+    user rule) the bond is defined and its length is positive.  (Analytic: rEN ≤ 0.5263 (ri + rj) from the kernel-
+    checked row bounds 2 ≤ Xi ≤ 12 and (√x − √y)² ≤ 4.21; rBO ≥ −0.1332 · 5 ln 2 · (ri + rj).) -/
+theorem bond_len_pos_wide (a1 a2 : String) (bo : Option Rat) (rules : List (List String × Rat))
+    (h1 : IsType a1) (h2 : IsType a2) (hb : Wide (bondOrderOf a1 a2 bo rules)) :
     ∃ k r : ℝ, bondParams (α := ℝ) uff4mof a1 a2 bo rules = .ok (k, r) ∧ 0 < r := by
-  obtain ⟨k, r, e, _, hr⟩ := bondParams_pos a1 a2 bo rules h1 h2 hb.1 hb.2
+  obtain ⟨k, r, e, _, hr⟩ := bondParams_pos_wide a1 a2 bo rules h1 h2 hb.1 hb.2
   exact ⟨k, r, e, hr⟩
 
-/-- **bond_k_pos.** … and its force constant is positive. -/
+/-- **bond_k_pos_wide.** … and its force constant is positive. -/
+theorem bond_k_pos_wide (a1 a2 : String) (bo : Option Rat) (rules : List (List String × Rat))
+    (h1 : IsType a1) (h2 : IsType a2) (hb : Wide (bondOrderOf a1 a2 bo rules)) :
+    ∃ k r : ℝ, bondParams (α := ℝ) uff4mof a1 a2 bo rules = .ok (k, r) ∧ 0 < k := by
+  obtain ⟨k, r, e, hk, _⟩ := bondParams_pos_wide a1 a2 bo rules h1 h2 hb.1 hb.2
+  exact ⟨k, r, e, hk⟩
+
+example : IsType "C_1" ∧ IsType "N_1" ∧ Wide (bondOrderOf "C_1" "N_1" none [(["N_1", "C_1"], 3)])
+    ∧ Wide (bondOrderOf "C_1" "N_1" (some (1 / 1000)) []) := by decide +kernel
+
+/-- **bond_len_pos.** (corollary) the bond orders in (0, 2]. -/
+theorem bond_len_pos (a1 a2 : String) (bo : Option Rat) (rules : List (List String × Rat))
+    (h1 : IsType a1) (h2 : IsType a2) (hb : Admissible (bondOrderOf a1 a2 bo rules)) :
+    ∃ k r : ℝ, bondParams (α := ℝ) uff4mof a1 a2 bo rules = .ok (k, r) ∧ 0 < r :=
+  bond_len_pos_wide a1 a2 bo rules h1 h2 hb.wide
+
+/-- **bond_k_pos.** (corollary) -/
 theorem bond_k_pos (a1 a2 : String) (bo : Option Rat) (rules : List (List String × Rat))
     (h1 : IsType a1) (h2 : IsType a2) (hb : Admissible (bondOrderOf a1 a2 bo rules)) :
-    ∃ k r : ℝ, bondParams (α := ℝ) uff4mof a1 a2 bo rules = .ok (k, r) ∧ 0 < k := by
-  obtain ⟨k, r, e, hk, _⟩ := bondParams_pos a1 a2 bo rules h1 h2 hb.1 hb.2
-  exact ⟨k, r, e, hk⟩
+    ∃ k r : ℝ, bondParams (α := ℝ) uff4mof a1 a2 bo rules = .ok (k, r) ∧ 0 < k :=
+  bond_k_pos_wide a1 a2 bo rules h1 h2 hb.wide
 
 example : IsType "Du" ∧ IsType "Fr" ∧ Admissible (bondOrderOf "Du" "Fr" (some 2) []) := by decide +kernel
 
@@ -229,15 +253,24 @@ theorem angle_k_pos (a1 a2 a3 : String) (bo1 bo2 : Option Rat) (rules : List (Li
 example : IsType "O_3" ∧ IsType "H_b" ∧ IsType "Fr" ∧ Listed (bondOrderOf "O_3" "H_b" none [])
     ∧ Listed (bondOrderOf "H_b" "Fr" (some 2) []) := by decide +kernel
 
-/-- **angle_k_pos_obtuse** (stretch). For centres with θ0 ≥ 90° the same holds on the larger range 0 < BO ≤ 2
-    (e.g. user rules below 1), together with the documented style. -/
+/-- **angle_k_pos_obtuse_wide** (stretch). For centres with θ0 ≥ 90° the angle is defined, has the documented style and
+    a positive force constant for EVERY pair of bond orders in (0, 32] (user rules below 1 or above 2 included). -/
+theorem angle_k_pos_obtuse_wide (a1 a2 a3 : String) (bo1 bo2 : Option Rat) (rules : List (List String × Rat))
+    (row2 : List Dec) (h1 : IsType a1) (h2 : lookup uff4mof a2 = some row2) (h3 : IsType a3)
+    (hb1 : Wide (bondOrderOf a1 a2 bo1 rules)) (hb2 : Wide (bondOrderOf a2 a3 bo2 rules)) :
+    ∃ res : AngleResult ℝ, angleParams (α := ℝ) uff4mof a1 a2 a3 bo1 bo2 rules = .ok res
+      ∧ res.style = angleStyle (colQ row2 1) a2
+      ∧ (90 ≤ colQ row2 1 → 0 < res.k) :=
+  angleParams_ok_wide a1 a2 a3 bo1 bo2 rules row2 h1 h2 h3 hb1 hb2
+
+/-- **angle_k_pos_obtuse** (stretch, corollary). the bond orders in (0, 2]. -/
 theorem angle_k_pos_obtuse (a1 a2 a3 : String) (bo1 bo2 : Option Rat) (rules : List (List String × Rat))
     (row2 : List Dec) (h1 : IsType a1) (h2 : lookup uff4mof a2 = some row2) (h3 : IsType a3)
     (hb1 : Admissible (bondOrderOf a1 a2 bo1 rules)) (hb2 : Admissible (bondOrderOf a2 a3 bo2 rules)) :
     ∃ res : AngleResult ℝ, angleParams (α := ℝ) uff4mof a1 a2 a3 bo1 bo2 rules = .ok res
       ∧ res.style = angleStyle (colQ row2 1) a2
       ∧ (90 ≤ colQ row2 1 → 0 < res.k) :=
-  angleParams_ok a1 a2 a3 bo1 bo2 rules row2 h1 h2 h3 hb1 hb2
+  angle_k_pos_obtuse_wide a1 a2 a3 bo1 bo2 rules row2 h1 h2 h3 hb1.wide hb2.wide
 
 example : (lookup uff4mof "Zr8f4").map (fun r => decide (90 ≤ colQ r 1) && angleStyle (colQ r 1) "Zr8f4" == .fourier)
     = some true := by decide +kernel
@@ -245,14 +278,14 @@ example : Admissible (bondOrderOf "O_3" "Zr8f4" none [(["O_3", "Zr8f4"], 1 / 2)]
     ∧ Admissible (bondOrderOf "Zr8f4" "O_2" (some (3 / 2)) []) := by
   decide +kernel
 
-/-- **angle_defined_style.** For table types and admissible bond orders `angle_params` is defined and returns the
+/-- **angle_defined_style.** For table types and bond orders in (0, 32] `angle_params` is defined and returns the
     documented potential style of its centre (`angle_style_spec`). -/
 theorem angle_defined_style (a1 a2 a3 : String) (bo1 bo2 : Option Rat) (rules : List (List String × Rat))
     (row2 : List Dec) (h1 : IsType a1) (h2 : lookup uff4mof a2 = some row2) (h3 : IsType a3)
-    (hb1 : Admissible (bondOrderOf a1 a2 bo1 rules)) (hb2 : Admissible (bondOrderOf a2 a3 bo2 rules)) :
+    (hb1 : Wide (bondOrderOf a1 a2 bo1 rules)) (hb2 : Wide (bondOrderOf a2 a3 bo2 rules)) :
     ∃ res : AngleResult ℝ, angleParams (α := ℝ) uff4mof a1 a2 a3 bo1 bo2 rules = .ok res
       ∧ res.style = angleStyle (colQ row2 1) a2 := by
-  obtain ⟨res, e, hs, _⟩ := angleParams_ok a1 a2 a3 bo1 bo2 rules row2 h1 h2 h3 hb1 hb2
+  obtain ⟨res, e, hs, _⟩ := angleParams_ok_wide a1 a2 a3 bo1 bo2 rules row2 h1 h2 h3 hb1 hb2
   exact ⟨res, e, hs⟩
 
 /-- **dihedral_outcome.** For table centre types, multiplicity ≥ 1 and a positive bond order `dihedral_params`
